@@ -77,6 +77,8 @@ def from_model(m):
             from hszinc import zoneinfo
             return utc.astimezone(pytz.timezone(zoneinfo.get_tz_map()[m[3]]))
         return utc.astimezone(datetime.timezone(datetime.timedelta(seconds=m[2])))
+    if k == 'naive-datetime':
+        return datetime.datetime.fromisoformat(m[1])
     if k == 'coord':
         return hszinc.Coordinate(m[1], m[2])
     if k == 'list':
